@@ -60,6 +60,7 @@ typedef struct {
   // trace
   volatile uint32_t ntr;
   volatile uint32_t overflow;
+  volatile uint32_t runaway;   // 1 + function id of the call that exhausted the child-side call budget
   trec tr[W_MAXTR];
   // faults (counters are per process; child side restarts at 0 after fork)
   int nfault;
